@@ -184,6 +184,9 @@ class FixedMarginBusiness(Sector):
         self.LabourInputName = labour_input_name
         self.OutputName = output_name
         self.AddVariable('SUP_' + output_name, 'Supply of goods', '')
+        # Declared here (filled in by _GenerateEquations), so that the labour market finds this demand
+        # regardless of the order in which the sectors were created.
+        self.AddVariable('DEM_' + labour_input_name, 'Demand for labour', '')
         self.AddVariable('PROF', 'Profits', 'SUP_GOOD - DEM_' + labour_input_name)
 
     def _GenerateEquations(self):
@@ -196,11 +199,11 @@ class FixedMarginBusiness(Sector):
         except KeyError:
             raise Warning('Business {0} Cannot Find Market for {1}'.format(self.Code, self.OutputName))
         if self.ProfitMargin == 0:
-            self.AddVariable('DEM_' + self.LabourInputName, 'Demand for labour', market_sup_good)
+            self.SetEquationRightHandSide('DEM_' + self.LabourInputName, market_sup_good)
             # self.Equations['PROF'] = ''
         else:
-            self.AddVariable('DEM_' + self.LabourInputName, 'Demand for labour',
-                             '%0.3f * %s' % (wage_share, market_sup_good))
+            self.SetEquationRightHandSide('DEM_' + self.LabourInputName,
+                                          '%0.3f * %s' % (wage_share, market_sup_good))
             self.SetEquationRightHandSide('PROF', '%0.3f * %s' % (self.ProfitMargin, market_sup_good))
         for s in self.Parent.SectorList:
             if 'DIV' in s.EquationBlock.Equations:
